@@ -470,7 +470,9 @@ fn tree_case(r: &mut Rng, stats: &mut Stats) -> Result<(), String> {
 /// A sound with a delayed start / a running fade under a track that is paused for a while:
 /// the delay and the fade are extended by exactly the paused duration (± one chunk).
 fn delay_extension_case(r: &mut Rng, stats: &mut Stats) -> Result<(), String> {
-	let mut rig = Rig::simple(SR, IBS);
+	// (in 40 % of the cases the device's internal buffer is three callbacks long: every callback is one short chunk, and
+	// fades, delays and positions must still be counted in the frames actually rendered)
+	let mut rig = Rig::simple(SR, if r.chance(0.4) { IBS * 3 } else { IBS });
 	let mut parent = rig.mgr.add_sub_track(TrackBuilder::new()).map_err(|_| "t")?;
 	let nested = r.chance(0.5);
 	let mut child = if nested { Some(parent.add_sub_track(TrackBuilder::new()).map_err(|_| "t")?) } else { None };
@@ -590,7 +592,7 @@ fn state_query_case(r: &mut Rng, known_clock_removed: bool, stats: &mut Stats) -
 /// A pause whose fade-out tween has a delayed start: the track keeps playing (reported Pausing) until the start time,
 /// then fades for the tween's duration (also when that is zero) and only then freezes.
 fn delayed_fade_case(r: &mut Rng, stats: &mut Stats) -> Result<(), String> {
-	let mut rig = Rig::simple(SR, IBS);
+	let mut rig = Rig::simple(SR, if r.chance(0.4) { IBS * 3 } else { IBS });
 	let mut t = rig.mgr.add_sub_track(TrackBuilder::new()).map_err(|_| "t")?;
 	let s = t.play(crate::probes::dc_sound(SR, 100_000, 0.25)).map_err(|_| "play")?;
 	for _ in 0..r.usize_in(1, 3) {
